@@ -27,7 +27,7 @@ def make_wallet_dir(keys, funded=1):
     return d, list(wal.unused_public_keys)
 
 
-def _child(script, d, order, crash_after, cs, argv):
+def _child(script, d, order, crash_after, cs, argv, advance=None):
     os.chdir(d)
     idx = {pk: i + 1 for i, pk in enumerate(order)}
     n = [0]
@@ -61,25 +61,48 @@ def _child(script, d, order, crash_after, cs, argv):
     mod.save_wallet = save
     mod.configure_logging_from_args = lambda a: None
     if script == "send":
-        class NM:
-            def broadcast_transaction(self, t):
+        # the node of the script: a real NetworkingThread object (LocalPeer, ChainManager, NetworkManager) that is never started; what it
+        # would send to its peers is logged
+        import skepticoin.networking.threading as nt
+
+        class Disk:
+            def load_peers(self):
+                return {}
+
+            def write_peers(self, p):
+                pass
+
+            def save_block(self, b):
+                pass
+
+            def flush_blocks(self):
+                pass
+
+            def save_transaction_for_debugging(self, t):
+                pass
+        holder = {}
+
+        def start(a, c):
+            th = nt.NetworkingThread(c, port=None, disk_interface=Disk())
+            o_b = th.local_peer.network_manager.broadcast_transaction
+
+            def bt(t):
+                o_b(t)
                 log({"op": "escape", "keys": [idx[o.public_key.public_key] for o in t.outputs if o.public_key.public_key in idx]})
+            th.local_peer.network_manager.broadcast_transaction = bt
+            th.start = lambda: None
+            th.stop = lambda: None
+            th.join = lambda *a_: None
+            holder["th"] = th
+            return th
 
-        class LP:
-            network_manager = NM()
-
-        class Thread:
-            local_peer = LP()
-
-            def stop(self):
-                pass
-
-            def join(self):
-                pass
+        def wait(thread, freshness=0):
+            if advance is not None:
+                advance(thread.local_peer)          # what the network thread does while the script waits for a fresh chain
         mod.check_chain_dir = lambda: None
         mod.read_chain_from_disk = lambda: cs
-        mod.start_networking_peer_in_background = lambda a, c: Thread()
-        mod.wait_for_fresh_chain = lambda *a, **k: None
+        mod.start_networking_peer_in_background = start
+        mod.wait_for_fresh_chain = wait
 
         def sleep(_s):
             raise KeyboardInterrupt()     # the user stops watching for confirmations
@@ -90,16 +113,36 @@ def _child(script, d, order, crash_after, cs, argv):
             log({"op": "escape", "keys": [last.get("k", 0)]})      # the address is on the terminal
         mod.print = pr
     sys.argv = ["skepticoin-" + script] + list(argv)
+
+    def report():
+        # the pending pool of the script's node against the ledger at its head
+        th = holder.get("th") if script == "send" else None
+        if th is None:
+            return
+        cm = th.local_peer.chain_manager
+        head = cm.coinstate.current_chain_hash
+        unspent = cm.coinstate.unspent_transaction_outs_by_hash[head]
+        bad = 0
+        refs = []
+        for t in list(cm.transaction_pool):
+            rs = [i.output_reference for i in t.inputs]
+            if any(r not in unspent for r in rs) or any(r in refs for r in rs):
+                bad += 1
+            refs += rs
+        with open("pool.json", "w") as f:
+            json.dump({"pending": len(cm.transaction_pool), "not_valid_at_head_or_conflicting": bad}, f)
     try:
         mod.main()
     except BaseException as e:      # noqa: B902
+        report()
         logf.write(json.dumps({"op": "raised", "error": repr(e)[:200]}) + "\n")
         logf.flush()
         os._exit(3)
+    report()
     os._exit(0)
 
 
-def run(script, keys, cs, argv, crash_after):
+def run(script, keys, cs, argv, crash_after, advance=None):
     """-> (events, killed, workdir).  crash_after = k: the process is killed right after its k-th event; 0: never."""
     d, order = make_wallet_dir(keys)
     sys.stdout.flush()
@@ -109,7 +152,7 @@ def run(script, keys, cs, argv, crash_after):
             devnull = os.open(os.devnull, os.O_WRONLY)
             os.dup2(devnull, 1)
             os.dup2(devnull, 2)
-            _child(script, d, order, crash_after, cs, argv)
+            _child(script, d, order, crash_after, cs, argv, advance)
         finally:
             os._exit(4)
     _, status = os.waitpid(pid, 0)
@@ -139,4 +182,5 @@ def run(script, keys, cs, argv, crash_after):
         events.append({"op": "restart", "k": idx.get(k, 0), "unused": unused})
     finally:
         os.chdir(cwd)
+    run.last_dir = d
     return events, killed, code, raised, len(order)
